@@ -32,10 +32,20 @@ def unparse(node: ast.AST | None) -> str:
         return ast.dump(node)
 
 
+def utext(node: ast.AST) -> str:
+    """ast.unparse without the suffixes of names introduced by the inliner
+    (multi-line; for whole-function text searches)."""
+    import re
+    return re.sub(r"__inl_[a-z]+", "", ast.unparse(node))
+
+
 def norm(node: ast.AST | None, maxlen: int = 160) -> str:
     """Normalised one-line text of a node: used in construct keys so that a
     finding is keyed by *what the code says*, never by its line number."""
     s = " ".join(unparse(node).split())
+    if "__inl_" in s:       # names introduced by sa/normalise.py's inliner
+        import re
+        s = re.sub(r"__inl_[a-z]+", "", s)
     return s if len(s) <= maxlen else s[: maxlen - 3] + "..."
 
 
@@ -178,7 +188,8 @@ class Program:
         if normalise and os.environ.get("VERIF_NO_NORMALISE") != "1":
             from .normalise import normalise_program
             self.norm_report = normalise_program(
-                self, unroll_loops=os.environ.get("VERIF_NO_UNROLL") != "1")
+                self, unroll_loops=os.environ.get("VERIF_NO_UNROLL") != "1",
+                canonical=os.environ.get("VERIF_NO_CANON") != "1")
 
     # -- loading ----------------------------------------------------------
     def _load(self) -> None:
